@@ -77,6 +77,12 @@ def main():
             rp = json.load(f)
         ctx = common.Ctx(prop, rp.get("tier", a.tier), rp.get("seed", seed), 0, 1, 10 ** 9, keys)
         common.import_repo()
+        if isinstance(rp.get("case"), dict) and rp["case"].get("library_exception"):
+            # recorded by the worker's last-resort trap: there is no single case to re-run, the traceback is the witness
+            print(rp["case"].get("traceback", ""))
+            print("VIOLATION property=%s replay=%s class=%s :: %s (re-run the check with VERIF_SEED=%s to reproduce)" % (
+                prop, a.replay, rp.get("class"), rp.get("detail"), rp.get("seed", seed)))
+            return 1
         mod.replay(ctx, common.unjson(rp["case"]))
         d = ctx.dump()
         if d["violations"]:
